@@ -261,12 +261,22 @@ def prebuild(env):
     for k in list(pre):
         pre[k + ":deepcopy"] = copy.deepcopy(pre[k])
         pre[k + ":copy"] = copy.copy(pre[k])
+    # a configuration whose decision names exactly as many individuals as there are slots (one complete set, no remainder),
+    # sampled again and again, and an option array handed to tiled_choice again and again
+    from pybrops.breed.prot.sel.cfg.SubsetSelectionConfiguration import SubsetSelectionConfiguration
+    pre["xcfg_exact"] = SubsetSelectionConfiguration(ncross=3, nparent=2, nmating=1, nprogeny=1, pgmat=env.pg, xconfig_decn=np.array([1, 4, 6, 2, 7, 0]))
+    pre["options"] = np.arange(10, 18)
     env.pre = pre
 
 
 def _preobj(key, how):
     def fn(env, rng):
         o = env.pre[key + how]
+        if key == "xcfg_exact":
+            return [np.asarray(o.sample_xconfig(return_xconfig=True)).copy(), np.asarray(o.xconfig_decn).copy()]
+        if key == "options":
+            from pybrops.core.random.sampling import tiled_choice
+            return [np.asarray(tiled_choice(o, (4, 2), False, None, rng)).copy(), o.copy()]
         if key == "pheno":
             return o.phenotype(env.pg)
         if key.startswith("mate"):
@@ -355,6 +365,8 @@ OPS = {
     "pre_climber_copied": ("lib", _preobj("climber", ":copy"), False),
     "pre_selebv_deepcopied": ("select", _preobj("selebv", ":deepcopy"), False),
     "pre_selebv_copied": ("select", _preobj("selebv", ":copy"), False),
+    "pre_xcfg_resample": ("lib", _preobj("xcfg_exact", ""), False),
+    "pre_tiled_exact_fit": ("lib", _preobj("options", ""), True),
     "select_embv": ("select", lambda env, rng: _select("ExpectedMaximumBreedingValueSubsetSelection", "ExpectedMaximumBreedingValueSelection",
                                                       lambda r: _algo("SortingSubsetOptimizationAlgorithm", None), nrep=2,
                                                       mateprot=_twdh(rng), unique_parents=True)(env, rng), True),
@@ -399,6 +411,7 @@ def execute(programs, variant):
     for pi, prog in enumerate(programs):
         if variant == "B" or pi % 2:
             noise(variant if variant == "B" else "A2" if pi % 4 == 1 else "A", env)
+        prebuild(env)
         if variant == "B":
             # "whatever was executed before": in this copy every call of the program has already been made once (any
             # state a call leaves behind in the process -- caches, module-level tables -- is then part of the history)
@@ -408,7 +421,6 @@ def execute(programs, variant):
                         OPS[nm][1](env, None)
                 except Exception:
                     pass
-        prebuild(env)
         gens = {}
         evs = []
         for op in prog:
